@@ -4,7 +4,8 @@ proof  : lean/Pyunicorn/Properties/C03.lean (matrix formulas / kernel loops =
          counts of the named sub-structures, BFS = shortest walk length, Laplacian
          laws, path-measure conventions, assortativity = Pearson, unit-weight
          n.s.i. relations, arithmetic width of the cliquishness denominators,
-         translator tie translate/arith_C03.json)
+         translator tie translate/arith_C03.json; round 4: link-weighted motif clustering =
+         Fagiolo's definition, Newman random-walk kernel + normalisation by the component size)
 tie    : correspondence of the Lean model (lean/Pyunicorn/Model/Net*.lean) with
          the public methods of `Network` and with the Cython kernels called
          directly, on the same graphs: exact for integer outputs, |x - p/q| <=
@@ -12,7 +13,8 @@ tie    : correspondence of the Lean model (lean/Pyunicorn/Model/Net*.lean) with
 search : brute-force definitions in `fractions.Fraction` (subset enumeration,
          Floyd-Warshall with path counting, peeling by subset search, Pearson
          correlation, dense linear algebra for the spectral / random-walk
-         measures) evaluated on the implementation's graphs, independent of Lean
+         measures) evaluated on the implementation's graphs, independent of Lean;
+         harness/c03_sweep.py: every public measure x every optional argument, coverage obligation
 """
 import contextlib
 import io
@@ -1657,6 +1659,8 @@ def run(ctx):
                 "permuted copies; every graph goes through every applicable measure; a subset additionally "
                 "through every constructor / array type, the public wrappers with non-default arguments, "
                 "float32/float64 weights rescaled by powers of two and 12-step call histories on one object; "
+                "round 4: every public measure of Network (by introspection) with every optional argument on "
+                "structured, sparse-disconnected and sampled graphs with cube link weights and dyadic node weights; "
                 "distinct = distinct "
                 "(directed, adjacency); non-trivial = at least 3 nodes and one link"
                 % ((4, 3) if quick else (5, 4)))
